@@ -65,7 +65,7 @@ Shapes == {"nil", "true", "int0", "int5", "intneg", "float", "strempty", "str", 
            "cyclist", "cycmap", "cycptr", "cycmutual", "strlong", "listlong",
            \* interface slices with methods, pointers that lead to themselves, defined pointer types, NaN keys, keys of different
            \* defined types with one value, shared sub-values sixty levels deep
-           "errslice", "stringerslice", "ptrcycle", "ptrptrmap", "namedptr", "nanmap", "nanifacemap", "namedkeys", "dag60", "dagmap"} \cup CharShapes \cup StrShapes \cup IntEdgeShapes
+           "errslice", "stringerslice", "ptrcycle", "ptrself", "stringermap", "hiddennanmap", "ptrptrmap", "namedptr", "nanmap", "nanifacemap", "namedkeys", "dag60", "dagmap"} \cup CharShapes \cup StrShapes \cup IntEdgeShapes
 V == Var("v")
 F0(f) == Filt(f, V, <<>>)
 Skeletons ==
@@ -102,6 +102,9 @@ Skeletons ==
     splitslice |-> <<PrintS(Filt("slice", Filt("split", V, <<LS(<<44>>)>>), <<LI(3), Un("-", LI(2))>>))>>,
     keysslice |-> <<PrintS(Filt("slice", Filt("keys", V, <<>>), <<LI(2), Un("-", LI(2))>>))>>,
     forkeys |-> <<For1("k", Filt("keys", V, <<>>), <<PrintS(Var("k"))>>)>>, firstlast |-> <<PrintS(Filt("first", V, <<>>)), PrintS(Filt("last", V, <<>>))>>,
+    attrdef |-> <<PrintS(Cond(Test(Attr(V, "a"), "defined", <<>>, FALSE), LI(1), LI(2)))>>, attrdef2 |-> <<PrintS(Cond(Test(Attr(Attr(V, "a"), "b"), "defined", <<>>, TRUE), LI(1), LI(2)))>>,
+    itemdef |-> <<PrintS(Cond(Test(Item(V, LI(0)), "defined", <<>>, FALSE), LI(1), LI(2)))>>, itemdefs |-> <<PrintS(Cond(Test(Item(V, LS(<<97>>)), "defined", <<>>, FALSE), LI(1), LI(2)))>>,
+    vdef |-> <<PrintS(Cond(Test(V, "defined", <<>>, FALSE), LI(1), LI(2)))>>,
     dumpv |-> <<PrintS(Bin("~", V, LS(<<33>>))), If1(Bin("==", V, LS(<<120>>)), <<Text(<<101>>)>>)>> ]
 \* slice with every small start and length on every list-like shape
 SliceShapes == {"strs", "ints", "arr3", "bigints", "str", "listmixed", "bytes", "strempty", "listempty", "biglist", "uintmap", "nilslice"}
